@@ -427,25 +427,29 @@ def lex_exhaustive(alphabet, maxlen, mode, prefix=b"", proj="full", oracle="-"):
         g = _run_out([HARNESS] + base + [str(first), proj, oracle])
         m = _run_out([DRIVER] + base + [str(first), proj, "-"])
         fails = [l for l in g if l.startswith("FAIL ")]
-        g = [l for l in g if not l.startswith("FAIL ")]
+        nt = [l.split() for l in g if l.startswith("NONTRIV ")]
+        nt3 = sum(int(x[1]) for x in nt); nt4 = sum(int(x[2]) for x in nt)
+        g = [l for l in g if not l.startswith("FAIL ") and not l.startswith("NONTRIV ")]
         mism = []
         if g != m:
             for (i, a, b) in first_diffs(g, m, limit=3):
                 blk = a.split()[0] if " " in a else b.split()[0]
-                gv = _run_out([HARNESS] + base + [str(first), proj, "-", blk])
+                gv = [l for l in _run_out([HARNESS] + base + [str(first), proj, "-", blk]) if not l.startswith("NONTRIV ")]
                 mv = _run_out([DRIVER] + base + [str(first), proj, "-", blk])
                 for (_, x, y) in first_diffs(gv, mv, limit=3):
                     mism.append((x.split(" => ")[0], x, y))
-        return fails, mism
+        return fails, mism, nt3, nt4
 
     with ThreadPoolExecutor(max_workers=16) as ex:
         results = list(ex.map(one, firsts))
     fails, mism = [], []
-    for f, m in results:
+    n3 = n4 = 0
+    for f, m, a, b in results:
         fails += [(l.split()[1], " ".join(l.split()[2:])) for l in f]
         mism += m
+        n3 += a; n4 += b
     n = (k ** (maxlen + 1) - 1) // (k - 1) if firsts == [-1] else (k ** (maxlen + 1) - 1) // (k - 1) - 1 + k
-    return {"n": n, "mismatches": mism, "fails": fails}
+    return {"n": n, "mismatches": mism, "fails": fails, "two_records": n3, "three_records": n4}
 
 
 def lex_cases(inputs, mode, proj="full"):
